@@ -626,13 +626,17 @@ cdef class CPUDomainManager(DomainManagerBase):
                         high.append(i)
                         high_translate.append(2*(ymax - yi))
 
+                # Extract both sets before appending either: appending
+                # re-aligns `added` (images of periodic ghosts are not
+                # Local), which invalidates the indices computed above.
                 copy = added.extract_particles(low)
+                copy_high = added.extract_particles(high)
                 if copy.get_number_of_particles() > 0:
                     self._add_array_to_array(copy.get_carray('y'), low_translate)
                     self._mul_to_array(copy.get_carray('v'), -1)
                     added.append_parray(copy)
 
-                copy = added.extract_particles(high)
+                copy = copy_high
                 if copy.get_number_of_particles() > 0:
                     self._add_array_to_array(copy.get_carray('y'), high_translate)
                     self._mul_to_array(copy.get_carray('v'), -1)
@@ -667,13 +671,15 @@ cdef class CPUDomainManager(DomainManagerBase):
                         high.append(i)
                         high_translate.append(2*(zmax - zi))
 
+                # As above: extract both sets before appending either.
                 copy = added.extract_particles(low)
+                copy_high = added.extract_particles(high)
                 if copy.get_number_of_particles() > 0:
                     self._add_array_to_array(copy.get_carray('z'), low_translate)
                     self._mul_to_array(copy.get_carray('w'), -1)
                     added.append_parray(copy)
 
-                copy = added.extract_particles(high)
+                copy = copy_high
                 if copy.get_number_of_particles() > 0:
                     self._add_array_to_array(copy.get_carray('z'), high_translate)
                     self._mul_to_array(copy.get_carray('w'), -1)
